@@ -479,7 +479,19 @@ func init() {
 					if !t {
 						eff = invertOp(eff)
 					}
-					return eff == token.NEQ
+					// idx != last, or (idx ranges over 0..last) idx < last / last > idx
+					if eff == token.NEQ {
+						return true
+					}
+					isIdx := func(x ssa.Value) bool {
+						x = unconv(x)
+						if _, isPhi := x.(*ssa.Phi); isPhi {
+							return true
+						}
+						bx, isBx := x.(*ssa.BinOp) // rangeindex + 1
+						return isBx && bx.Op == token.ADD
+					}
+					return (eff == token.LSS && isIdx(b.X)) || (eff == token.GTR && isIdx(b.Y))
 				}, "idx != len(params)-1")
 			}
 		}})
@@ -549,8 +561,37 @@ func init() {
 			cookie := c.field("Association", "myCookie")
 			st := c.storesIn(hi, pf)
 			okC := false
+			// the stored list may be built in a local first: literal, then append(s), then stored
+			var bases []*ssa.Slice
+			var walkB func(v ssa.Value, d int)
+			seenB := map[ssa.Value]bool{}
+			walkB = func(v ssa.Value, d int) {
+				if v == nil || d > 8 || seenB[v] {
+					return
+				}
+				seenB[v] = true
+				switch x := v.(type) {
+				case *ssa.Slice:
+					bases = append(bases, x)
+				case *ssa.Phi:
+					for _, e := range x.Edges {
+						walkB(e, d+1)
+					}
+				case *ssa.Call:
+					if b, isB := x.Call.Value.(*ssa.Builtin); isB && b.Name() == "append" {
+						walkB(x.Call.Args[0], d+1)
+					}
+				case *ssa.UnOp:
+					if w := loadedThroughSlot(c.P, x); w != ssa.Value(x) {
+						walkB(w, d+1)
+					}
+				}
+			}
 			if len(st) > 0 {
-				if sl, ok := st[0].Val.(*ssa.Slice); ok {
+				walkB(st[0].Val, 0)
+			}
+			for _, sl := range bases {
+				{
 					if al, ok := sl.X.(*ssa.Alloc); ok {
 						for _, r := range *al.Referrers() {
 							if ia, ok := r.(*ssa.IndexAddr); ok && IsConstInt(0)(ia.Index) {
